@@ -2,3 +2,4 @@ INIT Init
 NEXT Next
 INVARIANT Accepted
 INVARIANT SameShape
+INVARIANT RearmedPerRun
